@@ -759,6 +759,10 @@ func c20MinMax(c *Ctx, rule string, fi *FuncInfo, ps []*Path, less bool) {
 			if r.B != nil && r.A.Key() == lenV.Key() && r.Op == "==" {
 				lenEq, _ = r.B.IntVal()
 			}
+			// len(v) < 1: a length is never negative
+			if pl, kind, isInt := r.IntNorm(); isInt && kind == ">" && pl.Equal(polyConst(1).Add(ToPoly(lenV), -1)) {
+				lenEq = 0
+			}
 		}
 		switch {
 		case p.End == EndPanic && lenEq == 0:
